@@ -18,6 +18,10 @@ static void quiet(SP& s)
       s.spxout.setStream((SPxOut::Verbosity)v, devnull);
 }
 
+static std::string ratOrig;      // the rational LP right after the user's data entry
+static bool ratObserved = false;
+static int ratClass(SP& s);
+
 static std::string obs(SP& s, const std::string& lp0)
 {
    std::ostringstream o;
@@ -92,7 +96,97 @@ static std::string obs(SP& s, const std::string& lp0)
 
    // objective entries are reported through the user's sense, so they stay the same under a sense change
    o << " lp=" << (lp == lp0 ? "same" : "CHANGED");
+
+   if(ratObserved)
+      o << " rat=" << ratClass(s);
+
    return o.str();
+}
+
+// canonical dump of the rational LP (only if one exists)
+static std::string dumpRat(SP& s)
+{
+   if(s._rationalLP == nullptr)
+      return "none";
+
+   std::ostringstream o;
+   int m = s.numRowsRational(), n = s.numColsRational();
+   o << m << "x" << n << ":";
+
+   for(int j = 0; j < n; j++)
+      o << s.objRational(j).str() << "[" << s.lowerRational(j).str() << "," << s.upperRational(j).str() << "];";
+
+   for(int i = 0; i < m; i++)
+   {
+      o << s.lhsRational(i).str() << "<" << s.rhsRational(i).str() << ":";
+      const SVectorRational& r = s.rowVectorRational(i);
+      std::vector<std::pair<int, std::string>> es;
+
+      for(int k = 0; k < r.size(); k++) es.push_back({r.index(k), r.value(k).str()});
+
+      std::sort(es.begin(), es.end());
+
+      for(auto& e : es) o << e.first << "=" << e.second << ",";
+
+      o << ";";
+   }
+
+   return o.str();
+}
+
+// the exact rational image of the floating-point LP in the same format
+static std::string dumpRealAsRat(SP& s)
+{
+   std::ostringstream o;
+   int m = s.numRows(), n = s.numCols();
+   double inf = s.realParam(SP::INFTY);
+   auto q = [&](double v)
+   {
+      if(v >= inf) return Rational(inf).str();
+
+      if(v <= -inf) return Rational(-inf).str();
+
+      return Rational(v).str();
+   };
+   o << m << "x" << n << ":";
+
+   for(int j = 0; j < n; j++)
+      o << q(s.objReal(j)) << "[" << q(s.lowerReal(j)) << "," << q(s.upperReal(j)) << "];";
+
+   for(int i = 0; i < m; i++)
+   {
+      o << q(s.lhsReal(i)) << "<" << q(s.rhsReal(i)) << ":";
+      DSVectorBase<double> r;
+      s.getRowVectorReal(i, r);
+      std::vector<std::pair<int, std::string>> es;
+
+      for(int k = 0; k < r.size(); k++) es.push_back({r.index(k), Rational(r.value(k)).str()});
+
+      std::sort(es.begin(), es.end());
+
+      for(auto& e : es) o << e.first << "=" << e.second << ",";
+
+      o << ";";
+   }
+
+   return o.str();
+}
+
+
+// 0 none, 1 the data as entered, 2 exact image of the floating-point LP, 3 empty, 9 something else
+static int ratClass(SP& s)
+{
+   std::string d = dumpRat(s);
+
+   if(d == "none") return 0;
+
+   if(d == ratOrig) return 1;
+
+   if(d == dumpRealAsRat(s)) return 2;
+
+   if(s.numRowsRational() == 0 && s.numColsRational() == 0) return 3;
+
+   return 9;
 }
 
 static std::string maskedLP(SP& s)
@@ -221,6 +315,9 @@ static void runCases(const char* fn)
          s = new SP();
          quiet(*s);
 
+         ratObserved = false;
+         ratOrig = "";
+
          if(t[2] == "1")
             loadLP(*s);
 
@@ -280,6 +377,30 @@ static void runCases(const char* fn)
          else if(t[0] == "X")
          {
             s->resetSettings();
+            ret = "1";
+         }
+         else if(t[0] == "LOADLP")
+         {
+            // the user loads an LP and, if a rational LP exists, enters data that no double represents
+            loadLP(*s);
+
+            if(s->_rationalLP != nullptr)
+            {
+               if(s->intParam(SP::SYNCMODE) == SP::SYNCMODE_MANUAL)
+                  s->syncLPRational();     // in manual mode the user synchronises explicitly before editing
+
+               Rational third = 1;
+               third /= 3;
+               Rational m73 = -7;
+               m73 /= 3;
+               s->changeObjRational(0, third);
+               s->changeLowerRational(1, m73);
+               s->changeElementRational(1, 2, third);
+            }
+
+            lp0 = maskedLP(*s);
+            ratOrig = dumpRat(*s);
+            ratObserved = true;
             ret = "1";
          }
          else if(t[0] == "C")
